@@ -40,11 +40,36 @@ def main(argv=None):
         mod = __import__("qsverif." + ENGINES[a.prop], fromlist=["run"])
         rep = mod.run(a.prop, replay_file=a.replay)
         rep.is_replay = bool(a.replay)
-    except Exception:
+    except Exception as e:
         traceback.print_exc()
-        sys.stderr.write("MACHINERY-ERROR property=%s (exception in the harness)\n" % a.prop)
-        return 2
+        where = _raised_inside_implementation(e)
+        if where is None:
+            sys.stderr.write("MACHINERY-ERROR property=%s (exception in the harness)\n" % a.prop)
+            return 2
+        # the exception was raised by qstrader's own code while the harness was driving it with input the property
+        # quantifies over, at a place where the engine does not expect a refusal: the implementation crashed
+        rep = common.Report(a.prop)
+        rep.assumptions = ["the run was cut short by an exception raised inside the implementation"]
+        rep.cov["rule"] = "run aborted by a crash of the implementation"
+        rep.violation("crash|%s|%s" % (type(e).__name__, where[1]),
+                      "the implementation raised %s: %s at %s (function %s) on input the property quantifies over" % (
+                          type(e).__name__, str(e)[:200], where[0], where[1]), dict(kind="crash", where=list(where), error=str(e)[:500]))
     return common.finish(rep)
+
+
+def _raised_inside_implementation(e):
+    """(file:line, function) of the raise point when it lies in <REPO>/qstrader - also through a worker process, whose
+    traceback arrives as text - else None."""
+    import re
+    text = "".join(traceback.format_exception(type(e), e, e.__traceback__))
+    frames = re.findall(r'File "([^"]+)", line (\d+), in (\S+)', text)
+    if not frames:
+        return None
+    f, line, fn = frames[-1]
+    root = os.path.join(os.path.realpath(common.REPO), "qstrader") + os.sep
+    if os.path.realpath(f).startswith(root):
+        return ("%s:%s" % (os.path.relpath(os.path.realpath(f), os.path.realpath(common.REPO)), line), fn)
+    return None
 
 
 if __name__ == "__main__":
